@@ -237,13 +237,23 @@ def _str_consts(node: ast.AST) -> set[str]:
     return {n.value for n in ast.walk(node) if isinstance(n, ast.Constant) and isinstance(n.value, str)}
 
 
-def _dict_keys(node: ast.AST) -> set[str]:
+def _dict_keys(node: ast.AST, ctx: Ctx | None = None, f: Func | None = None) -> set[str]:
+    """String keys of the dict literals a value is made of (locals are followed when ctx/f are given)."""
     out = set()
     for n in ast.walk(node):
         if isinstance(n, ast.Dict):
             for k in n.keys:
                 if isinstance(k, ast.Constant) and isinstance(k.value, str):
                     out.add(k.value)
+    if ctx is not None and f is not None:
+        t = ctx.X.at(f, node)
+        for s_ in ctx.X.closure(t):
+            if s_[0] == "dict":
+                for k_, _v in s_[1]:
+                    if k_[0] == "const" and isinstance(k_[1], str):
+                        out.add(k_[1])
+            if s_[0] == "update" and s_[3][0] == "const" and isinstance(s_[3][1], str):
+                out.add(s_[3][1])
     return out
 
 
@@ -267,7 +277,7 @@ def protocol_tables(ctx: Ctx):
                 a = call.args[0]
                 if isinstance(a, ast.Constant) and isinstance(a.value, str):
                     c2p_written.add(a.value)
-                c2p_written |= _dict_keys(a)
+                c2p_written |= _dict_keys(a, ctx, mth)
     # parent reads: comparisons with / .get() / subscripts on the request
     handler = None
     for mth in parent_cls.methods.values():
@@ -276,23 +286,39 @@ def protocol_tables(ctx: Ctx):
     if handler is None:
         raise AnalysisError("request handler of the external optimizer not found")
     c2p_read: set[str] = set()
-    for n in nodes_in(handler, (ast.Compare, ast.Call, ast.Subscript)):
-        if isinstance(n, ast.Compare):
-            for c in [n.left] + n.comparators:
-                if isinstance(c, ast.Constant) and isinstance(c.value, str):
-                    c2p_read.add(c.value)
-        elif isinstance(n, ast.Call) and isinstance(n.func, ast.Attribute) and n.func.attr == "get" and n.args:
-            if isinstance(n.args[0], ast.Constant) and isinstance(n.args[0].value, str):
-                c2p_read.add(n.args[0].value)
-        elif isinstance(n, ast.Subscript) and isinstance(n.slice, ast.Constant) and isinstance(n.slice.value, str) and isinstance(n.ctx, ast.Load):
-            c2p_read.add(n.slice.value)
+    # the handler and the private methods of the same class it hands the request to
+    hfuncs = [handler]
+    for g in ctx.cg.reachable([handler], include_nested_values=False):
+        if g.cls is parent_cls and g is not handler and g.name.startswith("_") and g not in hfuncs:
+            hfuncs.append(g)
+    for hf in hfuncs:
+        for n in nodes_in(hf, (ast.Compare, ast.Call, ast.Subscript, ast.Match)):
+            if isinstance(n, ast.Compare):
+                for c in [n.left] + n.comparators:
+                    if isinstance(c, ast.Constant) and isinstance(c.value, str):
+                        c2p_read.add(c.value)
+            elif isinstance(n, ast.Call) and isinstance(n.func, ast.Attribute) and n.func.attr == "get" and n.args:
+                if isinstance(n.args[0], ast.Constant) and isinstance(n.args[0].value, str):
+                    c2p_read.add(n.args[0].value)
+            elif isinstance(n, ast.Subscript) and isinstance(n.slice, ast.Constant) and isinstance(n.slice.value, str) and isinstance(n.ctx, ast.Load):
+                c2p_read.add(n.slice.value)
+            elif isinstance(n, ast.Match):
+                for case in n.cases:
+                    for p_ in ast.walk(case.pattern):
+                        if isinstance(p_, ast.MatchValue) and isinstance(p_.value, ast.Constant) and isinstance(p_.value.value, str):
+                            c2p_read.add(p_.value.value)
+                        elif isinstance(p_, ast.MatchMapping):
+                            for k_ in p_.keys:
+                                if isinstance(k_, ast.Constant) and isinstance(k_.value, str):
+                                    c2p_read.add(k_.value)
     # parent -> child: values returned by the handler + literal answers in start
     p2c_written: set[str] = set()
-    for r_ in nodes_in(handler, ast.Return):
-        if r_.value is not None:
-            p2c_written |= _dict_keys(r_.value)
-            if isinstance(r_.value, ast.Constant) and isinstance(r_.value.value, str):
-                p2c_written.add(r_.value.value)
+    for hf in hfuncs:
+        for r_ in nodes_in(hf, ast.Return):
+            if r_.value is not None:
+                p2c_written |= _dict_keys(r_.value, ctx, hf)
+                if isinstance(r_.value, ast.Constant) and isinstance(r_.value.value, str):
+                    p2c_written.add(r_.value.value)
     start = parent_cls.methods["start"]
     write_args = set()
     for call in calls_in(start):
@@ -360,7 +386,7 @@ def c20_5(ctx: Ctx) -> RuleResult:
     res = RuleResult("C20.5", "DOM", "every waiting loop tests peer liveness in each iteration")
     for f in ctx.repo.funcs_in(MOD):
         for w in nodes_in(f, ast.While):
-            body_calls = [c for s in w.body for c in ast.walk(s) if isinstance(c, ast.Call)]
+            body_calls = [c for s in list(w.body) + [w.test] for c in ast.walk(s) if isinstance(c, ast.Call)]
             waits = any(
                 isinstance(c.func, ast.Attribute) and c.func.attr in ("read", "write", "sleep", "_request", "select", "_handle_request")
                 for c in body_calls
@@ -376,7 +402,15 @@ def c20_5(ctx: Ctx) -> RuleResult:
                         return True
                 return False
 
-            ok = liveness(w.test) or (bool(w.body) and liveness(w.body[0]))
+            # `check(); while not done(): check()` tests the peer before every attempt as well
+            prev = None
+            par = parent(w)
+            for fld in ("body", "orelse", "finalbody"):
+                lst = getattr(par, fld, None)
+                if isinstance(lst, list) and any(x is w for x in lst):
+                    i_ = next(i for i, x in enumerate(lst) if x is w)
+                    prev = lst[i_ - 1] if i_ > 0 else None
+            ok = liveness(w.test) or (bool(w.body) and liveness(w.body[0])) or (prev is not None and liveness(prev) and any(liveness(s_) for s_ in w.body))
             res.add(f, w, "the loop condition or the first statement of the body tests that the peer process is alive", ok,
                     "" if ok else "a waiting loop without a liveness test can hang forever when the peer dies",
                     construct=f"{f.name}: while {ast.unparse(w.test)[:50]}")
